@@ -6,10 +6,10 @@ D=$1; shift
 W=${W:-/tmp/seed/vw}
 git -C $W checkout -q -- . && git -C $W clean -fdq
 git -C $W apply --check $D/patch.diff || { echo "PATCH DOES NOT APPLY"; exit 9; }
-( cd $W && /venv/bin/python $D/demo.py >/dev/null 2>&1 ); echo "demo without change: exit $?"
+( cd $W && PYTHONPATH=$W /venv/bin/python $D/demo.py >/dev/null 2>&1 ); echo "demo without change: exit $?"
 git -C $W apply $D/patch.diff
 ( cd $W && /venv/bin/python -m pytest -q -p no:cacheprovider 2>&1 | tail -1 )
-( cd $W && /venv/bin/python $D/demo.py >/dev/null 2>&1 ); echo "demo with change: exit $?"
+( cd $W && PYTHONPATH=$W /venv/bin/python $D/demo.py >/dev/null 2>&1 ); echo "demo with change: exit $?"
 PROPS="$@"
 [ -z "$PROPS" ] && PROPS="C01 C02 C03 C04 C05 C06 C07 C08 C09 C10 C11 C12 C13 C14 C15 C17 C18 C19 C20"
 cd /verif
